@@ -159,3 +159,24 @@ Theorem C09_cluster_update_stationary : forall H nv L beta,
   wstat (canon H (all_substates nv) L) (fun c => sse_weight H beta (snd c)) cluster_cfg.
 Proof. intros H nv L beta Hs Hr. exact (cluster_stationary_canon H Hs nv L Hr beta). Qed.
 Print Assumptions C09_cluster_update_stationary.
+
+(* the flip theorems for the labelling the decomposition actually returns *)
+Theorem C09_decomposed_flip_keeps_worldline : forall sl st b n flips,
+  decompose sl = Some (b, n) -> vars_in_range (length st) sl = true -> wf st sl = true ->
+  let '(sl', st') := apply_flips sl st b flips in wf st' sl' = true.
+Proof. exact decomposed_flip_wf. Qed.
+Print Assumptions C09_decomposed_flip_keeps_worldline.
+
+Theorem C09_decomposed_flip_involutive : forall sl st b n flips,
+  decompose sl = Some (b, n) -> vars_in_range (length st) sl = true -> wf st sl = true ->
+  let '(sl', st') := apply_flips sl st b flips in apply_flips sl' st' b flips = (sl, st).
+Proof. exact decomposed_flip_involutive. Qed.
+Print Assumptions C09_decomposed_flip_involutive.
+
+Theorem C09_decomposed_flip_keeps_weight : forall H sl st b n flips,
+  decompose sl = Some (b, n) ->
+  (forall o, In (Some o) sl -> is_edge o = false -> flip_sym H o) ->
+  (forall o, In (Some o) sl -> is_edge o = true -> edge_free H o) ->
+  (weight_product H (fst (apply_flips sl st b flips)) == weight_product H sl)%Q.
+Proof. exact decomposed_flip_weight. Qed.
+Print Assumptions C09_decomposed_flip_keeps_weight.
